@@ -243,6 +243,29 @@ def c02(tier):
         missing = ids_here - covered
         if missing:
             raise ToolError('FMLVerifier did not cover programs %s' % sorted(missing)[:5])
+    if tier == 'thorough':
+        # design level: what the specification's own compiler (FMLCompiler, both schemes) emits is balanced too (a failure here is a defect of the specification)
+        import srctrace
+        eprogs = pool.construct_family(limit=600, rng=random.Random(seed() + 9))
+        erecs = []
+        for i, p in enumerate(eprogs):
+            rec = srctrace.source_record(i, p['ast'], 'ok', [])
+            rec['budget'] = 20000
+            erecs.append(rec)
+        zb = []
+        for b in range(0, len(erecs), 300):
+            epath = os.path.join(wd, 'c02equiv.%d.ndjson' % b)
+            write_ndjson(epath, erecs[b:b + 300])
+            re_ = tlc_or_die('MC_Equiv', env={'PROGS': epath}, workers=8, timeout=3000, tag='c02e')
+            chk.add_tlc(re_)
+            zb += [v for v in re_.lines.get('VERDICT', []) if v['bytes']]
+        zpath = os.path.join(wd, 'c02equiv.bcs.ndjson')
+        write_ndjson(zpath, [{'id': j, 'bytes': v['bytes'], 'enddepth': 1} for j, v in enumerate(zb)])
+        rz = tlc_or_die('FMLVerifier', env={'BCS': zpath}, workers=8, timeout=3000, tag='c02z')
+        chk.add_tlc(rz)
+        if rz.lines.get('BAD'):
+            raise ToolError('FMLCompiler emits unbalanced code (specification defect): %s' % rz.lines['BAD'][:2])
+        chk.notes['spec_compiler_outputs_verified'] = len(zb)
     # code ownership (every instruction belongs to exactly one method) from the in-memory ranges
     brecs = bytecode_records(outs)
     chk.traces += judge_bytecode(chk, brecs, wd, 'c02o', progs, {'owns_code', 'decodable'})
